@@ -26,7 +26,9 @@ Transcription (snapshot ef0888e + the `fix:` commits listed in findings/C16.txt)
   cron is an arbitrary `next` function (the driver instantiates `*/k` second schedules).
 * `queries` = `QueryNode.Queries(start, stop)`; the unbounded Go loop is run with fuel
   `stop - start + 1` ns (theorem `queries_fuel_irrelevant`: more fuel changes nothing).
-* `doQuery` = one live tick: mutate the node's own query, issue its text.
+* `doQuery` = one live tick: mutate the node's own query, issue its text; `batchTime` = the time it stamps on a
+  result batch. `validDims` = the time-dimension check of `Query.Dimensions`; `setStartTimeTraps` = where Go would
+  divide by zero. `Query.extra` = fill + tag dimensions (opaque, untouched).
 Core Lean only (the compiled driver imports this file).
 -/
 import Kap.Basic
@@ -195,14 +197,30 @@ structure Query where
   /-- `groupByTimeDL/groupByOffsetDL` are the literals of the statement (not detached copies) -/
   gbLinked : Bool := true
   alignGroup : Bool := false
+  /-- everything else the user configured that ends up in the text: fill option and the tag / `*` dimensions
+  (an opaque rendering; NO operation of query.go touches it after newQueryNode) -/
+  extra : String := ""
 deriving DecidableEq, Repr, Inhabited
 
 /-- NewQuery + Dimensions + AlignGroup as newQueryNode calls them (times are zero until the first tick). -/
-def newQueryWith (sp : Option Cond → Int → Int → Cond) (user : Option Cond) (gb : Option (Int × Int)) (alignGroup : Bool) : Query :=
+def newQueryWith (sp : Option Cond → Int → Int → Cond) (user : Option Cond) (gb : Option (Int × Int)) (alignGroup : Bool)
+    (extra : String := "") : Query :=
   let n := match user with
     | some c => c.natoms
     | none => 0
-  { cond := sp user 0 0, startIdx := n, stopIdx := n + 1, gb := gb, gbLinked := true, alignGroup := alignGroup }
+  { cond := sp user 0 0, startIdx := n, stopIdx := n + 1, gb := gb, gbLinked := true, alignGroup := alignGroup, extra := extra }
+
+/-- `Query.Dimensions` (after the fix: commit of findings/C16.txt): a time dimension must be positive. At the
+snapshot every length was accepted. -/
+def validDims (gb : Option (Int × Int)) : Bool :=
+  match gb with
+  | some (len, _) => decide (0 < len)
+  | none => true
+
+/-- `SetStartTime` evaluates `… % groupByTimeDL.Val`: Go panics when that is zero (integer divide by zero) —
+in `doQuery`'s own goroutine, which nothing recovers. -/
+def Query.setStartTimeTraps (q : Query) : Bool :=
+  q.alignGroup && q.gbLinked && (match q.gb with | some (len, _) => len == 0 | none => false)
 
 def newQuery := newQueryWith splice
 
@@ -249,10 +267,11 @@ def Query.clone := Query.cloneWith true
 structure Issued where
   cond : Option Cond      -- `none`: the text does not parse
   gb : Option (Int × Int)
+  extra : String := ""    -- fill option and tag / `*` dimensions
 deriving DecidableEq, Repr, Inhabited
 
 /-- `String()` as the database reads it. -/
-def Query.issue (q : Query) : Issued := { cond := parse q.cond.print, gb := q.gb }
+def Query.issue (q : Query) : Issued := { cond := parse q.cond.print, gb := q.gb, extra := q.extra }
 
 /-! ### batch.go: ticks -/
 
@@ -301,6 +320,10 @@ def chooseSched (every : Int) (align : Bool) (cronSet : Bool) : Option Sched :=
 /-- The `*/k * * * * * *` cron schedule the driver uses as a concrete `next` (K = k seconds in ns). -/
 def cronNext (K : Int) (t : Int) : Option Int := some ((t / K + 1) * K)
 
+/-- A cron schedule that ENDS (a year field): its firing times as an ascending list; after the last one
+`cronexpr.Next` answers the zero time (`none`). -/
+def cronListNext (fires : List Int) (t : Int) : Option Int := fires.find? (fun f => decide (t < f))
+
 /-! ### batch.go: queries -/
 
 /-- One live tick of `doQuery`: `stop = tick − offset`, `start = stop − period`. -/
@@ -312,6 +335,13 @@ def Query.setRange (q : Query) (r : Int × Int) : Query := (q.setStartTime r.1).
 def doQuery (offset period : Int) (q : Query) (tick : Int) : Query × Issued :=
   let q' := q.setRange (tickRange offset period tick)
   (q', q'.issue)
+
+/-- The time `doQuery` stamps on a result batch: the query's stop, unless the query is grouped by time and the
+result carried a point time (`ptMax` = the latest point time of the series, `none` = no points). -/
+def batchTime (groupedByTime : Bool) (ptMax : Option Int) (stop : Int) : Int :=
+  match ptMax with
+  | none => stop
+  | some t => if groupedByTime then t else stop
 
 def liveRun (offset period : Int) : Query → List Int → List Issued
   | _, [] => []
